@@ -317,3 +317,145 @@ Section Loop.
     apply loop_true_creatable in E; [congruence | assumption].
   Qed.
 End Loop.
+
+(* ------------------------------------------------------------------ getset_command *)
+Lemma requested_names_proof : forall ar samples, requested ar samples None = samples.
+Proof. reflexivity. Qed.
+
+Lemma requested_prefix_archive_order_proof : forall ar samples p,
+  requested ar samples (Some p) = filter (fun s => starts_with s p) (map fst ar).
+Proof. reflexivity. Qed.
+
+Lemma getset_composes_stdout_proof : forall decode arc samples prefix tmp st ar,
+  open_archive decode (p_fs st) arc = Some ar ->
+  requested ar samples prefix <> [] ->
+  Forall (fun n => get_sample ar n <> None) (requested ar samples prefix) ->
+  creatable (p_fs st) tmp = true ->
+  exists st', getset_command decode arc samples prefix None tmp st = (Zero, st') /\
+    p_stdout st' = p_stdout st ++ concat (map (sample_fasta ar) (requested ar samples prefix)) /\
+    fs_read (p_fs st') tmp = None /\
+    (forall q, q <> tmp -> fs_read (p_fs st') q = fs_read (p_fs st) q).
+Proof.
+  intros decode arc samples prefix tmp st ar Hopen Hne Hall Hc.
+  unfold getset_command. rewrite Hopen.
+  destruct (requested ar samples prefix) as [|n names] eqn:Er; [contradiction Hne; reflexivity|].
+  destruct (loop_ok ar tmp (n :: names) st SinkStdout (p_stdout st) Hall Hc I eq_refl)
+    as (st2 & L & O & T & _ & (F1 & _ & F3)).
+  rewrite L. cbn [sink_path out_content] in *.
+  specialize (T Hne). destruct (fs_remove_some _ _ _ T) as (fs3 & R). rewrite R.
+  destruct (fs_remove_spec _ _ _ R) as (R1 & R2 & R3).
+  eexists. split; [reflexivity|]. cbn [with_fs p_fs p_stdout].
+  split; [inversion O; reflexivity|]. split; [assumption|].
+  intros q Hq. rewrite R2 by (intro; subst; apply Hq; reflexivity).
+  apply F1; [intro; subst; apply Hq; reflexivity | discriminate].
+Qed.
+
+Lemma getset_composes_file_proof : forall decode arc samples prefix out tmp st ar,
+  open_archive decode (p_fs st) arc = Some ar ->
+  requested ar samples prefix <> [] ->
+  Forall (fun n => get_sample ar n <> None) (requested ar samples prefix) ->
+  creatable (p_fs st) tmp = true -> creatable (p_fs st) out = true -> out <> tmp ->
+  exists st', getset_command decode arc samples prefix (Some out) tmp st = (Zero, st') /\
+    fs_read (p_fs st') out = Some (concat (map (sample_fasta ar) (requested ar samples prefix))) /\
+    p_stdout st' = p_stdout st /\
+    fs_read (p_fs st') tmp = None /\
+    (forall q, q <> tmp -> q <> out -> fs_read (p_fs st') q = fs_read (p_fs st) q).
+Proof.
+  intros decode arc samples prefix out tmp st ar Hopen Hne Hall Hc Hco Hot.
+  unfold getset_command. rewrite Hopen.
+  destruct (requested ar samples prefix) as [|n names] eqn:Er; [contradiction Hne; reflexivity|].
+  unfold fs_create. rewrite Hco.
+  set (st1 := with_fs st (fs_set (p_fs st) out [])).
+  assert (Hok : sink_ok st1 (SinkFile {| h_path := out; h_off := 0 |}) tmp).
+  { cbn [sink_ok h_path h_off]. split; [assumption|]. exists []. split; [apply fs_read_set_same | reflexivity]. }
+  assert (Hout : out_content st1 (sink_path (SinkFile {| h_path := out; h_off := 0 |})) = Some []).
+  { cbn [sink_path out_content h_path]. apply fs_read_set_same. }
+  assert (Hc1 : creatable (p_fs st1) tmp = true) by exact Hc.
+  destruct (loop_ok ar tmp (n :: names) st1 _ [] Hall Hc1 Hok Hout) as (st2 & L & O & T & _ & (F1 & F2 & F3)).
+  rewrite L. cbn [sink_path out_content h_path app] in *.
+  specialize (T Hne). destruct (fs_remove_some _ _ _ T) as (fs3 & R). rewrite R.
+  destruct (fs_remove_spec _ _ _ R) as (R1 & R2 & R3).
+  eexists. split; [reflexivity|]. cbn [with_fs p_fs p_stdout].
+  split; [rewrite R2 by (intro; subst; apply Hot; reflexivity); exact O|].
+  split; [rewrite F2 by discriminate; reflexivity|]. split; [assumption|].
+  intros q Hq1 Hq2. rewrite R2 by (intro; subst; apply Hq1; reflexivity).
+  rewrite F1; [| intro; subst; apply Hq1; reflexivity | intro E; inversion E; subst; apply Hq2; reflexivity].
+  subst st1. cbn [with_fs p_fs]. apply fs_read_set_other. intro; subst; apply Hq2; reflexivity.
+Qed.
+
+(* an unknown / unreadable sample: Err after exactly the earlier samples were written; the temp file stays *)
+Lemma getset_unknown_nonzero_proof : forall decode arc samples prefix output tmp st ar good bad rest,
+  open_archive decode (p_fs st) arc = Some ar ->
+  requested ar samples prefix = good ++ bad :: rest ->
+  Forall (fun n => get_sample ar n <> None) good -> get_sample ar bad = None ->
+  creatable (p_fs st) tmp = true ->
+  (forall o, output = Some o -> o <> tmp /\ creatable (p_fs st) o = true) ->
+  exists st', getset_command decode arc samples prefix output tmp st = (NonZero, st') /\
+    match output with
+    | None => p_stdout st' = p_stdout st ++ concat (map (sample_fasta ar) good)
+    | Some o => fs_read (p_fs st') o = Some (concat (map (sample_fasta ar) good)) /\ p_stdout st' = p_stdout st
+    end /\
+    (good <> [] -> fs_read (p_fs st') tmp = Some (sample_fasta ar (last good []))) /\
+    (good = [] -> fs_read (p_fs st') tmp = fs_read (p_fs st) tmp).
+Proof.
+  intros decode arc samples prefix output tmp st ar good bad rest Hopen Er Hall Hbad Hc Hout.
+  unfold getset_command. rewrite Hopen, Er.
+  destruct (good ++ bad :: rest) as [|n0 names0] eqn:En; [destruct good; discriminate|]. rewrite <- En. clear En n0 names0.
+  destruct output as [o|].
+  - destruct (Hout o eq_refl) as (Hot & Hco). unfold fs_create. rewrite Hco.
+    set (st1 := with_fs st (fs_set (p_fs st) o [])).
+    assert (Hok : sink_ok st1 (SinkFile {| h_path := o; h_off := 0 |}) tmp).
+    { cbn [sink_ok h_path h_off]. split; [assumption|]. exists []. split; [apply fs_read_set_same | reflexivity]. }
+    assert (Ho : out_content st1 (sink_path (SinkFile {| h_path := o; h_off := 0 |})) = Some []).
+    { cbn [sink_path out_content h_path]. apply fs_read_set_same. }
+    assert (Hc1 : creatable (p_fs st1) tmp = true) by exact Hc.
+    destruct (loop_bad ar tmp good bad rest st1 _ [] Hall Hbad Hc1 Hok Ho) as (st2 & L & O & T & Nil & (F1 & F2 & F3)).
+    rewrite L. cbn [sink_path out_content h_path app] in *.
+    exists st2. split; [reflexivity|]. split; [split; [exact O | rewrite F2 by discriminate; reflexivity]|].
+    split; [assumption|]. intro Hg. rewrite (Nil Hg). subst st1. cbn [with_fs p_fs].
+    apply fs_read_set_other. assumption.
+  - destruct (loop_bad ar tmp good bad rest st SinkStdout (p_stdout st) Hall Hbad Hc I eq_refl)
+      as (st2 & L & O & T & Nil & _).
+    rewrite L. cbn [sink_path out_content] in *.
+    exists st2. split; [reflexivity|]. split; [inversion O; reflexivity|].
+    split; [assumption|]. intro Hg. rewrite (Nil Hg). reflexivity.
+Qed.
+
+(* exit 0 tells the truth: everything requested was readable and has been written, in order *)
+Lemma getset_zero_complete_proof : forall decode arc samples prefix output tmp st st',
+  getset_command decode arc samples prefix output tmp st = (Zero, st') ->
+  output <> Some tmp ->
+  exists ar, open_archive decode (p_fs st) arc = Some ar /\
+    requested ar samples prefix <> [] /\
+    Forall (fun n => get_sample ar n <> None) (requested ar samples prefix) /\
+    match output with
+    | None => p_stdout st' = p_stdout st ++ concat (map (sample_fasta ar) (requested ar samples prefix))
+    | Some o => fs_read (p_fs st') o = Some (concat (map (sample_fasta ar) (requested ar samples prefix)))
+    end.
+Proof.
+  intros decode arc samples prefix output tmp st st' H Hot.
+  pose proof H as H0. unfold getset_command in H.
+  destruct (open_archive decode (p_fs st) arc) as [ar|] eqn:Hopen; [|discriminate].
+  exists ar. split; [reflexivity|].
+  destruct (requested ar samples prefix) as [|n names] eqn:Er; [discriminate|].
+  assert (Hne : n :: names <> []) by discriminate.
+  split; [assumption|].
+  destruct output as [o|].
+  - destruct (fs_create (p_fs st) o) as [fs1|] eqn:Ec; [|discriminate].
+    destruct (getset_loop ar (n :: names) tmp (with_fs st fs1) _) as [[|] st2] eqn:L; [|discriminate].
+    pose proof (loop_true_all _ _ _ _ _ _ L) as Hall. split; [assumption|].
+    pose proof (loop_true_creatable _ _ _ _ _ _ Hne L) as Hc.
+    apply fs_create_spec in Ec. destruct Ec as (Hco & ->).
+    assert (Hot' : o <> tmp) by (intro; subst; apply Hot; reflexivity).
+    rewrite <- Er in Hall, Hne.
+    destruct (getset_composes_file_proof decode arc samples prefix o tmp st ar Hopen Hne Hall Hc Hco Hot')
+      as (st'' & E & A & _).
+    rewrite H0 in E. inversion E; subst. rewrite Er in A. exact A.
+  - destruct (getset_loop ar (n :: names) tmp st SinkStdout) as [[|] st2] eqn:L; [|discriminate].
+    pose proof (loop_true_all _ _ _ _ _ _ L) as Hall. split; [assumption|].
+    pose proof (loop_true_creatable _ _ _ _ _ _ Hne L) as Hc.
+    rewrite <- Er in Hall, Hne.
+    destruct (getset_composes_stdout_proof decode arc samples prefix tmp st ar Hopen Hne Hall Hc)
+      as (st'' & E & A & _).
+    rewrite H0 in E. inversion E; subst. rewrite Er in A. exact A.
+Qed.
